@@ -1,52 +1,294 @@
-import hashlib, struct
-def sha256d(b): return hashlib.sha256(hashlib.sha256(b).digest()).digest()
-def cs(n):
-    if n < 0xfd: return bytes([n])
-    if n <= 0xffff: return b'\xfd'+n.to_bytes(2,'little')
-    if n <= 0xffffffff: return b'\xfe'+n.to_bytes(4,'little')
-    return b'\xff'+n.to_bytes(8,'little')
-def vb(b): return cs(len(b))+b
-def enc_in(i): return i['hash']+i['n'].to_bytes(4,'little')+vb(i['script'])+i['seq'].to_bytes(4,'little')
-def enc_out(o): return o['value'].to_bytes(8,'little',signed=True)+vb(o['script'])
-def enc_tx(t, witness=True):
+"""Reference Bitcoin wire format (transactions incl. BIP144, headers, blocks), written from the protocol
+documentation on plain Python data.  Never imports bitcoin.*
+
+Model:
+  tx     = {'version': int32, 'vin': [txin...], 'vout': [txout...], 'locktime': uint32,
+            'wit': None | [[item, ...] per input]}
+  txin   = {'hash': 32 bytes, 'n': uint32, 'script': bytes, 'seq': uint32}
+  txout  = {'value': int64, 'script': bytes}
+  header = {'version': int32, 'prev': 32 bytes, 'merkle': 32 bytes, 'time': uint32, 'bits': uint32, 'nonce': uint32}
+  block  = header + {'vtx': [tx...]}
+"""
+import hashlib
+
+
+def sha256d(b):
+    return hashlib.sha256(hashlib.sha256(b).digest()).digest()
+
+
+def compact_size(n):
+    assert n >= 0
+    if n < 0xfd:
+        return bytes([n])
+    if n <= 0xffff:
+        return b'\xfd' + n.to_bytes(2, 'little')
+    if n <= 0xffffffff:
+        return b'\xfe' + n.to_bytes(4, 'little')
+    return b'\xff' + n.to_bytes(8, 'little')
+
+
+def var_bytes(b):
+    return compact_size(len(b)) + bytes(b)
+
+
+class _W:
+    """byte sink that remembers field boundaries"""
+
+    def __init__(self):
+        self.parts = []
+        self.n = 0
+        self.bounds = []
+
+    def put(self, b):
+        self.parts.append(b)
+        self.n += len(b)
+        self.bounds.append(self.n)
+
+    def value(self):
+        return b''.join(self.parts)
+
+
+def _put_in(w, i):
+    w.put(i['hash'])
+    w.put(i['n'].to_bytes(4, 'little'))
+    w.put(compact_size(len(i['script'])))
+    w.put(bytes(i['script']))
+    w.put(i['seq'].to_bytes(4, 'little'))
+
+
+def _put_out(w, o):
+    w.put(o['value'].to_bytes(8, 'little', signed=True))
+    w.put(compact_size(len(o['script'])))
+    w.put(bytes(o['script']))
+
+
+def has_witness(t):
     wit = t.get('wit')
-    has = witness and wit is not None and any(len(s)>0 for s in wit)
-    b = t['version'].to_bytes(4,'little',signed=True)
-    if has: b += b'\x00\x01'
-    b += cs(len(t['vin']))+b''.join(enc_in(i) for i in t['vin'])
-    b += cs(len(t['vout']))+b''.join(enc_out(o) for o in t['vout'])
+    return wit is not None and any(len(s) > 0 for s in wit)
+
+
+def _put_tx(w, t, witness=True):
+    has = witness and has_witness(t)
+    w.put(t['version'].to_bytes(4, 'little', signed=True))
     if has:
-        for s in wit: b += cs(len(s))+b''.join(vb(x) for x in s)
-    return b + t['locktime'].to_bytes(4,'little')
-def find_and_delete_codesep(script):
-    import refinterp as R
-    out=b''
-    for op,d,s,e in R.tokenize(script):
-        if op != 0xab: out += script[s:e]
+        w.put(b'\x00')
+        w.put(b'\x01')
+    w.put(compact_size(len(t['vin'])))
+    for i in t['vin']:
+        _put_in(w, i)
+    w.put(compact_size(len(t['vout'])))
+    for o in t['vout']:
+        _put_out(w, o)
+    if has:
+        assert len(t['wit']) == len(t['vin'])
+        for s in t['wit']:
+            w.put(compact_size(len(s)))
+            for item in s:
+                w.put(compact_size(len(item)))
+                w.put(bytes(item))
+    w.put(t['locktime'].to_bytes(4, 'little'))
+
+
+def encode_tx(t, witness=True):
+    w = _W()
+    _put_tx(w, t, witness)
+    return w.value()
+
+
+def encode_tx_bounds(t, witness=True):
+    w = _W()
+    _put_tx(w, t, witness)
+    return w.value(), w.bounds
+
+
+def encode_in(i):
+    w = _W()
+    _put_in(w, i)
+    return w.value()
+
+
+def encode_out(o):
+    w = _W()
+    _put_out(w, o)
+    return w.value()
+
+
+def encode_outpoint(i):
+    return i['hash'] + i['n'].to_bytes(4, 'little')
+
+
+def _put_header(w, h):
+    w.put(h['version'].to_bytes(4, 'little', signed=True))
+    w.put(h['prev'])
+    w.put(h['merkle'])
+    w.put(h['time'].to_bytes(4, 'little'))
+    w.put(h['bits'].to_bytes(4, 'little'))
+    w.put(h['nonce'].to_bytes(4, 'little'))
+
+
+def encode_header(h):
+    w = _W()
+    _put_header(w, h)
+    return w.value()
+
+
+def encode_block_bounds(b, witness=True):
+    w = _W()
+    _put_header(w, b)
+    w.put(compact_size(len(b['vtx'])))
+    for t in b['vtx']:
+        _put_tx(w, t, witness)
+    return w.value(), w.bounds
+
+
+def encode_block(b, witness=True):
+    return encode_block_bounds(b, witness)[0]
+
+
+def txid(t):
+    return sha256d(encode_tx(t, witness=False))
+
+
+def wtxid(t):
+    return sha256d(encode_tx(t, witness=True))
+
+
+# ---------------------------------------------------------------------------------------------------------------
+# strict decoder (oracle redundancy: decode(encode(m)) == m)
+
+class Truncated(Exception):
+    pass
+
+
+class Malformed(Exception):
+    pass
+
+
+class _R:
+    def __init__(self, b):
+        self.b = bytes(b)
+        self.p = 0
+
+    def take(self, n):
+        if self.p + n > len(self.b):
+            raise Truncated()
+        r = self.b[self.p:self.p + n]
+        self.p += n
+        return r
+
+    def u(self, n, signed=False):
+        return int.from_bytes(self.take(n), 'little', signed=signed)
+
+    def cs(self):
+        f = self.u(1)
+        if f < 0xfd:
+            return f
+        if f == 0xfd:
+            v = self.u(2)
+            if v < 0xfd:
+                raise Malformed('non-canonical CompactSize')
+            return v
+        if f == 0xfe:
+            v = self.u(4)
+            if v <= 0xffff:
+                raise Malformed('non-canonical CompactSize')
+            return v
+        v = self.u(8)
+        if v <= 0xffffffff:
+            raise Malformed('non-canonical CompactSize')
+        return v
+
+    def vb(self):
+        return self.take(self.cs())
+
+
+def _get_in(r):
+    return {'hash': r.take(32), 'n': r.u(4), 'script': r.vb(), 'seq': r.u(4)}
+
+
+def _get_out(r):
+    return {'value': r.u(8, True), 'script': r.vb()}
+
+
+def _get_tx(r):
+    t = {'version': r.u(4, True)}
+    mark = r.p
+    n = r.cs()
+    wit = None
+    if n == 0:
+        flag = r.u(1)
+        if flag != 1:
+            raise Malformed('unknown flag')
+        n = r.cs()
+        wit = True
+    t['vin'] = [_get_in(r) for _ in range(n)]
+    t['vout'] = [_get_out(r) for _ in range(r.cs())]
+    if wit:
+        t['wit'] = [[r.vb() for _ in range(r.cs())] for _ in range(n)]
+        if not any(t['wit']):
+            raise Malformed('superfluous witness record')
+    else:
+        t['wit'] = None
+    t['locktime'] = r.u(4)
+    return t
+
+
+def decode_tx(b):
+    r = _R(b)
+    t = _get_tx(r)
+    if r.p != len(r.b):
+        raise Malformed('extra data')
+    return t
+
+
+def decode_header(b):
+    r = _R(b)
+    h = {'version': r.u(4, True), 'prev': r.take(32), 'merkle': r.take(32), 'time': r.u(4), 'bits': r.u(4),
+         'nonce': r.u(4)}
+    if r.p != len(r.b):
+        raise Malformed('extra data')
+    return h
+
+
+def decode_block(b):
+    r = _R(b)
+    h = {'version': r.u(4, True), 'prev': r.take(32), 'merkle': r.take(32), 'time': r.u(4), 'bits': r.u(4),
+         'nonce': r.u(4)}
+    h['vtx'] = [_get_tx(r) for _ in range(r.cs())]
+    if r.p != len(r.b):
+        raise Malformed('extra data')
+    return h
+
+
+def norm_tx(t):
+    """canonical comparable form: witness None iff no stack is non-empty"""
+    return {'version': t['version'], 'locktime': t['locktime'],
+            'vin': [dict(hash=bytes(i['hash']), n=i['n'], script=bytes(i['script']), seq=i['seq']) for i in t['vin']],
+            'vout': [dict(value=o['value'], script=bytes(o['script'])) for o in t['vout']],
+            'wit': [[bytes(x) for x in s] for s in t['wit']] if has_witness(t) else None}
+
+
+# ---------------------------------------------------------------------------------------------------------------
+# merkle trees (recursive definition)
+
+def merkle_root(hashes):
+    """Bitcoin merkle root: pair up, duplicating the last element of an odd level, until one hash remains."""
+    assert len(hashes) >= 1
+    level = list(hashes)
+    while len(level) > 1:
+        if len(level) % 2:
+            level = level + [level[-1]]
+        level = [sha256d(level[i] + level[i + 1]) for i in range(0, len(level), 2)]
+    return level[0]
+
+
+def merkle_tree(hashes):
+    """All levels concatenated, leaves first (the layout of CBlock.build_merkle_tree_from_txids)."""
+    out = list(hashes)
+    level = list(hashes)
+    while len(level) > 1:
+        if len(level) % 2:
+            level = level + [level[-1]]
+        level = [sha256d(level[i] + level[i + 1]) for i in range(0, len(level), 2)]
+        out.extend(level)
     return out
-ONE = (1).to_bytes(32,'little')
-def legacy_sighash(script, t, idx, ht):
-    if idx >= len(t['vin']): return ONE, True
-    base = ht & 0x1f
-    if base == 3 and idx >= len(t['vout']): return ONE, True
-    acp = bool(ht & 0x80)
-    sc = find_and_delete_codesep(script)
-    ins = []
-    for j,i in enumerate(t['vin']):
-        if acp and j != idx: continue
-        ins.append(dict(hash=i['hash'], n=i['n'], script=sc if j==idx else b'', seq=i['seq'] if (j==idx or base not in (2,3)) else 0))
-    if base == 2: outs = []
-    elif base == 3: outs = [dict(value=-1, script=b'')]*idx + [t['vout'][idx]]
-    else: outs = t['vout']
-    b = enc_tx(dict(version=t['version'], vin=ins, vout=outs, locktime=t['locktime']), witness=False)
-    return sha256d(b + ht.to_bytes(4,'little')), False
-def bip143(script, t, idx, ht, amount):
-    base = ht & 0x1f; acp = bool(ht & 0x80); Z=b'\x00'*32
-    hp = Z if acp else sha256d(b''.join(i['hash']+i['n'].to_bytes(4,'little') for i in t['vin']))
-    hs = Z if (acp or base in (2,3)) else sha256d(b''.join(i['seq'].to_bytes(4,'little') for i in t['vin']))
-    if base not in (2,3): ho = sha256d(b''.join(enc_out(o) for o in t['vout']))
-    elif base == 3 and idx < len(t['vout']): ho = sha256d(enc_out(t['vout'][idx]))
-    else: ho = Z
-    i = t['vin'][idx]
-    pre = t['version'].to_bytes(4,'little',signed=True)+hp+hs+i['hash']+i['n'].to_bytes(4,'little')+vb(script)+amount.to_bytes(8,'little',signed=True)+i['seq'].to_bytes(4,'little')+ho+t['locktime'].to_bytes(4,'little')+ht.to_bytes(4,'little')
-    return sha256d(pre)
